@@ -49,7 +49,11 @@ class ProtocolHandler:
 
         # Get method - only requests/notifications have method
         method = getattr(message, "method", None)
+        # Notifications carry no id and must never be answered
+        is_notification = getattr(message, "id", None) is None
         if not method:
+            if is_notification:
+                return None, None
             # Get ID if available (not on notifications)
             msg_id = getattr(message, "id", None)
             return self.create_error_response(msg_id, -32600, "Invalid request"), None
@@ -60,6 +64,8 @@ class ProtocolHandler:
 
         handler = self._handlers.get(method)
         if not handler:
+            if is_notification:
+                return None, None
             # Get ID if available (not on notifications)
             msg_id = getattr(message, "id", None)
             return self.create_error_response(
@@ -67,9 +73,14 @@ class ProtocolHandler:
             ), None
 
         try:
-            return await handler(message, session_id)
+            response, new_session_id = await handler(message, session_id)
+            if is_notification:
+                return None, new_session_id
+            return response, new_session_id
         except Exception as e:
             logging.error(f"Handler error for {method}: {e}")
+            if is_notification:
+                return None, None
             # Get ID if available (not on notifications)
             msg_id = getattr(message, "id", None)
             return self.create_error_response(
